@@ -266,6 +266,11 @@ class Queue(Greenlet):
             except IndexError:
                 return
             ret = policy.apply(current)
+            if ret is not None:
+                # apply() may *generate* its envelopes: take them once, so an
+                # empty generator counts as "keep using envelope" and the rest
+                # of the chain still sees every new envelope.
+                ret = list(ret)
             if ret:
                 results.remove(current)
                 results.extend(ret)
